@@ -8,9 +8,12 @@ import (
 	"verif/simdisk"
 )
 
-func init() { engines["C10"] = runFault }
+func init() { engines["C10"] = func() *ShardResult { return runFault("C10") } }
 
-func runFault() *ShardResult {
+// runFault enumerates workloads x failing I/O step x failure kind. For C10 every violation counts (one that the
+// oracle attributes to another property is still an I/O failure handled wrongly); for C13 only the clauses about
+// segment IDs and files are reported.
+func runFault(prop string) *ShardResult {
 	res := newResult()
 	thorough := *fTier == "thorough"
 	maxLen := 3
@@ -51,8 +54,8 @@ func runFault() *ShardResult {
 		if len(res.Findings) >= 40 {
 			return
 		}
-		f := core.Finding{Prop: "C10", Engine: "fault", Msg: msg, Cfg: cfg, Ops: ops, Extra: map[string]interface{}{"fault": fp, "fault_desc": fp.String()}}
-		f.SigS = fmt.Sprintf("C10|fault|seg=%d|%s|%s|%s", cfg.SegSize, core.OpsString(ops), fp.String(), firstLine(msg))
+		f := core.Finding{Prop: prop, Engine: "fault", Msg: msg, Cfg: cfg, Ops: ops, Extra: map[string]interface{}{"fault": fp, "fault_desc": fp.String()}}
+		f.SigS = fmt.Sprintf("%s|fault|seg=%d|%s|%s|%s", prop, cfg.SegSize, core.OpsString(ops), fp.String(), firstLine(msg))
 		res.Findings = append(res.Findings, f)
 	}
 	n := 0
@@ -64,7 +67,9 @@ func runFault() *ShardResult {
 				// fault-free dry run sizes the enumeration
 				dry := core.RunFault(cfg, cur, cont, nil)
 				for _, v := range dry.Viol {
-					add("[no fault injected] "+v.Msg, cfg, cur, &core.FaultPlan{At: -1})
+					if prop == "C10" || v.Prop == prop {
+						add("[no fault injected] "+v.Msg, cfg, cur, &core.FaultPlan{At: -1})
+					}
 				}
 				for at := 0; at < dry.FaultOps; at++ {
 					for _, kind := range []simdisk.FaultKind{simdisk.FaultClean, simdisk.FaultAfter, simdisk.FaultShort} {
@@ -87,7 +92,9 @@ func runFault() *ShardResult {
 							}
 							outcomes[fmt.Sprintf("%s|%s", r.HitOp, r.Outcome)] = true
 							for _, v := range r.Viol {
-								add(v.Msg, cfg, cur, fp)
+								if prop == "C10" || v.Prop == prop {
+									add(v.Msg, cfg, cur, fp)
+								}
 							}
 							if r.Failed > 0 {
 								// second continuation: carry on without retrying the call that failed
@@ -98,7 +105,9 @@ func runFault() *ShardResult {
 								res.Counts["distinct_nontrivial"]++
 								outcomes[fmt.Sprintf("noretry|%s|%s", r2.HitOp, r2.Outcome)] = true
 								for _, v := range r2.Viol {
-									add("[continuation without retry] "+v.Msg, cfg, cur, fp)
+									if prop == "C10" || v.Prop == prop {
+										add("[continuation without retry] "+v.Msg, cfg, cur, fp)
+									}
 								}
 							}
 							if len(res.Samples) < 3 && r.Failed > 1 {
